@@ -423,6 +423,7 @@ func (m *Machine) resetPath() {
 	m.crypto = nil
 	m.divMemo = nil
 	m.fmtOpaque = 0
+	m.timerRace = m.P.TimerRace
 	m.aborting = false
 	g0 := &G{id: 0, started: true, resume: make(chan struct{})}
 	m.gs = []*G{g0}
